@@ -747,8 +747,11 @@ class ClassDeclaration(Declaration):
             params = []
             for p in f.params:
                 new_p = deepcopy(p)
-                new_p.param_type = types.substitute_type(new_p.get_type(),
-                                                         type_var_map)
+                # Copy the type, because it may be a type of the program
+                # (e.g., a type argument of the superclass) that is
+                # modified below.
+                new_p.param_type = deepcopy(types.substitute_type(
+                    new_p.get_type(), type_var_map))
                 if new_p.param_type.is_type_var() and (
                         new_p.param_type.bound is not None):
                     new_p.param_type.bound = _instantiate_type_param_rec(
@@ -759,8 +762,8 @@ class ClassDeclaration(Declaration):
                 _instantiate_type_param_rec(t, type_var_map)
                 for t in f.type_parameters
             ]
-            ret_type = types.substitute_type(deepcopy(f.get_type()),
-                                             type_var_map)
+            ret_type = deepcopy(types.substitute_type(f.get_type(),
+                                                      type_var_map))
             if ret_type.is_type_var() and ret_type.bound is not None:
                 ret_type.bound = _instantiate_type_param_rec(ret_type.bound,
                                                              type_var_map)
